@@ -245,6 +245,28 @@ func (ts *TermStore) Eq(a, b *Term) *Term {
 	if a.IsConst() && b.Op == OpZExt {
 		return ts.Eq(b, a)
 	}
+	if a.IsConst() && !b.IsConst() {
+		a, b = b, a
+	}
+	if b.IsConst() && a.W > 0 {
+		switch a.Op {
+		case OpAdd:
+			// x + k2 == k  <=>  x == k - k2
+			if a.A[1].IsConst() {
+				return ts.Eq(a.A[0], ts.Const(a.W, b.K-a.A[1].K))
+			}
+			if a.A[0].IsConst() {
+				return ts.Eq(a.A[1], ts.Const(a.W, b.K-a.A[0].K))
+			}
+		case OpIte:
+			// push a comparison with a constant into an ite when both arms decide it
+			ea := ts.Eq(a.A[1], b)
+			eb := ts.Eq(a.A[2], b)
+			if ea.IsConst() && eb.IsConst() {
+				return ts.Ite(a.A[0], ea, eb)
+			}
+		}
+	}
 	if a.id > b.id {
 		a, b = b, a
 	}
